@@ -377,6 +377,10 @@ func (h *RealtimeHandler) HandleEntityUpdatePose(ctx context.Context, msg hwebso
 			WithTag("msg_type", msg.Type)
 	}
 
+	if update.Pose == nil {
+		return nil
+	}
+
 	entity, ok := session.EntityByID(update.EntityId)
 	if !ok {
 		return nil
